@@ -7,7 +7,6 @@ import (
 	"math/big"
 	mrand "math/rand"
 	"net"
-	"time"
 
 	wr "github.com/mroth/weightedrand"
 	pb "github.com/refraction-networking/conjure/proto"
@@ -27,8 +26,9 @@ func (sc *SubnetConfig) getSubnetsVarint(seed []byte, weighted bool) ([]*phantom
 			return nil, fmt.Errorf("failed to seed random for weighted rand")
 		}
 
-		// nolint:staticcheck // here for backwards compatibility with clients
-		mrand.Seed(seedInt)
+		// A generator of our own, seeded like the global one the clients used: selections running
+		// concurrently must not re-seed each other's generator between Seed and use.
+		r := mrand.New(mrand.NewSource(seedInt))
 
 		choices := make([]wr.Choice, 0, len(sc.WeightedSubnets))
 		for _, cjSubnet := range sc.WeightedSubnets {
@@ -40,7 +40,7 @@ func (sc *SubnetConfig) getSubnetsVarint(seed []byte, weighted bool) ([]*phantom
 			return nil, err
 		}
 
-		return parseSubnets(c.Pick().(*pb.PhantomSubnets))
+		return parseSubnets(c.PickSource(r).(*pb.PhantomSubnets))
 
 	}
 
@@ -213,12 +213,11 @@ func SelectAddrFromSubnet(seed []byte, net1 *net.IPNet) (net.IP, error) {
 		return nil, fmt.Errorf("failed to create seed ")
 	}
 
-	// nolint:staticcheck // here for backwards compatibility with clients
-	mrand.Seed(seedInt)
+	// A generator of our own, seeded like the global one the clients used (see getSubnetsVarint).
+	r := mrand.New(mrand.NewSource(seedInt))
 	randBytes := make([]byte, addrLen/8)
 
-	// nolint:staticcheck // here for backwards compatibility with clients
-	_, err := mrand.Read(randBytes)
+	_, err := r.Read(randBytes)
 	if err != nil {
 		return nil, err
 	}
@@ -237,10 +236,4 @@ func SelectAddrFromSubnet(seed []byte, net1 *net.IPNet) (net.IP, error) {
 	ipBigInt.Add(ipBigInt, randBigInt)
 
 	return ipFromBigInt(ipBigInt, len(base))
-}
-
-func init() {
-	// NOTE: math/rand is only used for backwards compatibility.
-	// nolint:staticcheck
-	mrand.Seed(time.Now().UnixNano())
 }
